@@ -65,6 +65,10 @@ pub fn alphabet(w: i32, h: i32) -> Vec<Op> {
         Op::Fill(PathSpec::new(tri(-5.0, -2.0)), SrcSpec::Solid(RED), Opts { mode: BlendMode::SrcOver, alpha: 1.0, aa: false }),
         Op::Stroke(PathSpec::new(tri(0.5, hf - 0.5)), StyleSpec { width: 0.0, cap: 0, join: 0, miter: 4., dash: vec![], offset: 0. }, SrcSpec::Solid(RED), Opts::default()),
         Op::Stroke(PathSpec::new(vec![POp::L(0.5, 0.5), POp::L(wf - 0.5, hf - 0.5)]), StyleSpec { width: 1.0, cap: 1, join: 1, miter: 4., dash: vec![1.0, 0.5], offset: 0.25 }, SrcSpec::Solid(GRN), Opts::default()),
+        // a curved stroke (its flattening depends on the scale of the transform in force) and a
+        // transform of another scale: the same call twice in one history under different transforms
+        Op::Stroke(PathSpec::new(vec![POp::M(0.5, 0.5), POp::Q(wf * 2.0, 0.0, wf - 0.5, hf - 0.5), POp::A(wf * 0.5, hf * 0.5, 1.5, 0.0, 5.0)]), StyleSpec { width: 0.75, cap: 1, join: 1, miter: 4., dash: vec![], offset: 0. }, SrcSpec::Solid(HALF), Opts::default()),
+        Op::SetTransform([0.125, 0., 0., 0.125, 1.0, 0.5]),
         // transforms
         Op::SetTransform([0., 0., 0., 1., 0., 0.]),
         Op::SetTransform(IDENT),
@@ -509,7 +513,7 @@ impl Check for C10 {
 
     fn run(&self, run: &Run) {
         let q = run.tier.quick();
-        run.rule("histories over a 41-call alphabet (fills of very different vertical extents, off-surface and degenerate paths, paths without MoveTo / without Close, curves, clip pushes of on/off-surface paths, clip rect, pops, zero-width and dashed strokes, singular / identity / fractional transforms, clear, fast-path fill_rect, a transparent fill_rect, layers (one composited with Src), a surface copy) are explored exhaustively; every transition is compared with the same call on a fresh target holding the same visible state (open layers re-established by replaying their draws, and a second time by pushing them and copying their pixels in; for histories of length <= 2, and pops of length 3, the fresh target lives on a fresh thread); non-trivial = history contains at least two drawing calls");
+        run.rule("histories over a 43-call alphabet (fills of very different vertical extents, off-surface and degenerate paths, paths without MoveTo / without Close, curves, clip pushes of on/off-surface paths, clip rect, pops, zero-width and dashed strokes, singular / identity / fractional transforms, clear, fast-path fill_rect, a transparent fill_rect, layers (one composited with Src), a surface copy) are explored exhaustively; every transition is compared with the same call on a fresh target holding the same visible state (open layers re-established by replaying their draws, and a second time by pushing them and copying their pixels in; for histories of length <= 2, and pops of length 3, the fresh target lives on a fresh thread); non-trivial = history contains at least two drawing calls");
         run.assume("merging: two histories with equal (all buffers, transform, clip stack, layer stack, rasteriser idle flag, hidden path cursor) differ at most in the rasteriser's arena address and cur_y, both re-initialised before use; keys are 64-bit hashes");
         no_growth(run, 4, 4);
         if q {
